@@ -12,8 +12,8 @@ LEVEL = "model_checking"
 TECHNIQUE = "explicit enumeration of all event histories (execute / check-condition / replug / unplug / close-failure, then a closing event) up to a depth bound on the real SCSIDevice over real files, in lock-step with a handle reference model; invariant evaluated inside the stand-in binding on every command"
 RULE = ("all sequences of up to D events (D=5 quick, 6 thorough) over {execute GOOD, execute CHECK CONDITION, replug (node replaced by a new "
         "inode), unplug, sabotage (next close() of the live handle fails with EBADF), open-fault (the next open() of the device path fails once with EACCES)}, each followed by every closing event {none, close(), "
-        "with-block normal exit, with-block exit by exception, SCSI facade with-block exit}, x replug detection {on, off} x {read-only, "
-        "read-write}; histories one event shorter also with the device path being a symbolic link to the node that is replaced, and with the node being a character special file replaced by one of the same device number; plus ISCSIDevice close/with/disconnect histories. states = distinct (reference-model state, observed handle set) "
+        "with-block normal exit, with-block exit by exception, SCSI facade with-block exit, exit of a facade that was used for and left another device before}, x replug detection {on, off} x {read-only, "
+        "read-write}; histories one event shorter also with the device path being a symbolic link to the node that is replaced, with the node being a character special file replaced by one of the same device number, and with the path being a link re-pointed to a node of another name while the old node stays (device object from init_device); plus ISCSIDevice close/with/disconnect histories. states = distinct (reference-model state, observed handle set) "
         "pairs; transitions = events executed on the real device. Non-trivial = history contains replug, unplug or sabotage.")
 ASSUMPTIONS = [
     "device nodes are real files under /dev/shm/pyscsi-verif-<pid>/ (real inodes, real open/stat/close); replug = rename of a new file over the path, old inode kept alive by a hard link so inode numbers are never recycled",
@@ -21,7 +21,7 @@ ASSUMPTIONS = [
     "when closing the stale handle fails, both 'error raised, fresh handle open, command not sent' and 'command sent through the fresh handle' are accepted; use of a device after close() is outside the property",
 ]
 EVENTS = ["x", "c", "r", "u", "s", "o"]   # exec good, exec check condition, replug, unplug, sabotage (next close fails), next open() of the path fails once
-CLOSERS = ["none", "close", "with_ok", "with_exc", "scsi_exit"]
+CLOSERS = ["none", "close", "with_ok", "with_exc", "scsi_exit", "scsi_reuse"]
 
 
 def bounds(tier):
@@ -46,7 +46,7 @@ class Boom(Exception):
     pass
 
 
-def run_history(detect, rw, events, closer, obs=None, symlink=False, chr=False):
+def run_history(detect, rw, events, closer, obs=None, symlink=False, chr=False, factory=False):
     """replay one history on a fresh device; returns violations"""
     install.ensure()
     from pyscsi.pyscsi.scsi_cdb_testunitready import TestUnitReady
@@ -77,7 +77,11 @@ def run_history(detect, rw, events, closer, obs=None, symlink=False, chr=False):
             raise PermissionError(13, "Permission denied", file)
         return builtins.open(file, *a, **k)
     try:
-        dev = SCSIDevice(node.path, rw, detect)
+        if factory:
+            from pyscsi.utils import init_device
+            dev = init_device(node.path, rw)          # (detection is on by default)
+        else:
+            dev = SCSIDevice(node.path, rw, detect)
         devmod.open = failing_open
         # reference model
         m = {"present": True, "gen": 1, "hgen": 1, "sab": False, "closed": False}
@@ -194,6 +198,25 @@ def run_history(detect, rw, events, closer, obs=None, symlink=False, chr=False):
                 s = SCSI(None)
                 s.device = dev
                 s.__exit__(None, None, None)
+            elif closer == "scsi_reuse":
+                # a facade that has already been used for - and left - another device is pointed at this one and left again
+                from pyscsi.pyscsi.scsi import SCSI
+                other = nodes.Node(lambda g: Target())
+                try:
+                    odev = SCSIDevice(other.path, rw, detect)
+                    s = SCSI(None)
+                    s.device = odev
+                    with s:
+                        pass
+                    if other.open_handles():
+                        out.append(("handle_not_released", "the facade's first device was not released on leaving the with block"))
+                    s.device = dev
+                    with s:
+                        pass
+                finally:
+                    for fd, _ in other.open_handles():
+                        os.close(fd)
+                    other.destroy()
         except Exception as e:  # noqa: BLE001
             err = e
         if closer != "none":
@@ -283,6 +306,23 @@ def run_iscsi(seq, obs=None):
             s = SCSI(None)
             s.device = dev
             s.__exit__(None, None, None)
+        elif closer == "scsi_reuse":
+            from pyscsi.pyscsi.scsi import SCSI
+
+            class Other(object):
+                closed = 0
+
+                def close(self):
+                    self.closed += 1
+            s = SCSI(None)
+            s.device = Other()
+            with s:
+                pass
+            if s.device.closed != 1:
+                out.append(("iscsi/first_device", "the facade's first device was closed %d times" % s.device.closed))
+            s.device = dev
+            with s:
+                pass
         ctxs = list(registry.contexts)
         if len(ctxs) != 1:
             out.append(("iscsi/contexts", "%d contexts created" % len(ctxs)))
@@ -300,7 +340,8 @@ def run_iscsi(seq, obs=None):
 def run_case(case, obs=None):
     if case[0] == "sg":
         _, detect, rw, events, closer = case[:5]
-        return run_history(detect, rw, events, closer, obs, symlink=len(case) > 5 and case[5] == 1, chr=len(case) > 5 and case[5] == 2)
+        kind = case[5] if len(case) > 5 else 0
+        return run_history(detect, rw, events, closer, obs, symlink=(kind == 1) or ("repoint" if kind == 3 else False), chr=kind == 2, factory=kind == 3)
     return run_iscsi(case[1], obs)
 
 
@@ -352,4 +393,8 @@ def run_partition(part, tier, seed):
                 do(["sg", detect, rw, events, "close", 2], any(e in events for e in "ruso"), len(events))
             else:
                 acc.extra["character_special_nodes"] = ["not available in this environment (mknod refused): histories over character special files skipped"]
+            # ... and with the device path being a link that is RE-POINTED to a node of another name (the old node stays in place and
+            # belongs to another device now), the device object obtained through pyscsi.utils.init_device
+            if detect:
+                do(["sg", detect, rw, events, "close", 3], any(e in events for e in "ruso"), len(events))
     return acc
